@@ -4,4 +4,5 @@ export CARGO_NET_OFFLINE=true
 set -e
 mkdir -p /verif/target /verif/evidence /verif/replays
 (cd /verif/harness && cargo build --release --offline)
+(cd /repo && cargo build --offline -p emulator-2a --target-dir /verif/target/repo-bin)
 if [ -d /verif/harness-bin ]; then (cd /verif/harness-bin && cargo build --release --offline); fi
